@@ -94,9 +94,9 @@ func worker(args []string) {
 	w := &wk{run: run, fam: fam, chunk: chunk, journal: jf}
 	defer run.ExportState(statePath)
 	base := run.Rand(fmt.Sprintf("%s/%s/%d", arch, fam, chunk))
-	count := func(k string) {
-		run.Inc("scalar_cases/" + arch + "/" + k)
-		run.Distinct("operation_kinds", arch, "scalar", k)
+	count := func(fn, label string) {
+		run.Inc("scalar_cases/" + arch + "/" + fn)
+		run.Distinct("operation_kinds", arch, "scalar", fn, label)
 	}
 
 	switch fam {
@@ -105,24 +105,26 @@ func worker(args []string) {
 		for i := 0; i < n; i++ {
 			w.note(fmt.Sprintf("%s field-seq chunk=%d seq=%d", arch, chunk, i))
 			rng := base.Fork(fmt.Sprint(i))
-			var f *fail
+			var fails []*fail
 			func() {
 				defer func() {
 					if x := recover(); x != nil {
-						f = &fail{class: fmt.Sprintf("field/panic@%s", arch), what: fmt.Sprintf("field operation panicked: %v", x), witness: map[string]interface{}{"arch": arch, "panic": fmt.Sprint(x)}}
+						fails = append(fails, &fail{class: fmt.Sprintf("field/panic@%s", arch), what: fmt.Sprintf("field operation panicked: %v", x), witness: map[string]interface{}{"arch": arch, "panic": fmt.Sprint(x)}})
 					}
 				}()
-				f = runFieldSequence(rng, ops, nil)
+				runFieldSequence(rng, ops, nil, func(f *fail) { fails = append(fails, f) })
 			}()
 			run.Inc("evaluations")
 			run.Inc("field_sequences/" + arch)
 			run.Distinct("cases", arch, "field-seq", chunk, i, rng.Drawn)
-			if f != nil {
+			for k, f := range fails {
 				var trace []string
-				func() {
-					defer func() { recover() }()
-					runFieldSequence(base.Fork(fmt.Sprint(i)), map[string]int64{}, &trace)
-				}()
+				if k == 0 {
+					func() {
+						defer func() { recover() }()
+						runFieldSequence(base.Fork(fmt.Sprint(i)), map[string]int64{}, &trace, func(*fail) {})
+					}()
+				}
 				f.witness["sequence_index"] = i
 				w.report(f, trace)
 			}
@@ -186,6 +188,21 @@ func worker(args []string) {
 		}
 	case "sweep":
 		w.note(fmt.Sprintf("%s sweep chunk=%d", arch, chunk))
+		if chunk == 0 {
+			// keys for which XY.GetPublicKey once returned the wrong 02/03 prefix (parity read from a
+			// non-normalised Y; fixed in /repo 14c88d01): must stay right
+			for _, kh := range []string{"72464c074491db52316defcf84e87376b21f61e28c45149e540517e0288b8d2d", "e4910d9ff7dfa181152659a51de807001662a38b34066fa0fda9a2ca66639851"} {
+				k := mustHex(kh)
+				for _, l := range []int{33, 65} {
+					out := make([]byte, l)
+					wit := map[string]interface{}{"k": kh, "family": "regression-keys"}
+					w.report(guard("BaseMultiply", wit, func() *fail {
+						return judgeBytes("BaseMultiply", secp256k1.BaseMultiply(refec.Bytes32(k), out), out, refec.ScalarBaseMult(k), wit)
+					}), nil)
+					count("BaseMultiply", "regression-keys")
+				}
+			}
+		}
 		sweepBaseMultiply(base, n, count, func(f *fail) { w.report(f, nil) })
 		run.Count("evaluations", int64(n))
 		run.Distinct("cases", arch, "sweep", chunk, n)
